@@ -23,6 +23,20 @@ def observe(ev, p, inp):
         return [0, -1, repr(v)[:200]]
 
 
+def curried(w):
+    """The same program written with explicit currying: ((f a1) a2 ... an) for a
+    primitive head of arity >= 2 applied to >= 2 arguments (the inner application
+    is partial, so it cannot raise), recursively in the arguments.  Its reference
+    value is that of the flat program."""
+    from synth.syntax.program import Function
+    if w[0] == 0:
+        return O.sym(w[1])
+    head, args = w[1], [curried(a) for a in w[2:]]
+    if head[0] == 0 and head[1] in S.PRIMS and S.PRIMS[head[1]][1] >= 2 and len(args) >= 2:
+        return Function(Function(O.sym(head), args[:1]), args[1:])
+    return Function(O.sym(head), args)
+
+
 def impl(case):
     if case["kind"] == "ref":
         w, inp = case["data"]
@@ -33,11 +47,13 @@ def impl(case):
     ev = DSLEvaluator(semantics(), use_cache=bool(use_cache))
     ev.skip_exceptions = {S.EXC_BY_ID[i] for i in skip}
     out = []
-    for o in ops:
+    curry = set(case.get("curry", []))
+    for k, o in enumerate(ops):
         if o[0] == 1:
             ev.clear_cache()
             out.append("clear")
         else:
             # fresh objects for every call: equality of programs and inputs, never identity
-            out.append(observe(ev, O.prog(o[1]), [S.value_from_wire(v) for v in o[2]]))
+            p = curried(o[1]) if k in curry else O.prog(o[1])
+            out.append(observe(ev, p, [S.value_from_wire(v) for v in o[2]]))
     return out
